@@ -124,8 +124,14 @@ pub fn derive_footer(path: &Path, f: &mut Value) -> Result<(), String> {
                     (nc, mm)
                 }
             };
+            // unsigned logical type over INT32 / INT64 (the footer stores the unsigned value's bit pattern)
+            let d = cc.column_descr();
+            let unsigned = matches!(d.logical_type_ref(), Some(parquet::basic::LogicalType::Integer { is_signed: false, .. }))
+                || matches!(d.converted_type(), parquet::basic::ConvertedType::UINT_8 | parquet::basic::ConvertedType::UINT_16
+                    | parquet::basic::ConvertedType::UINT_32 | parquet::basic::ConvertedType::UINT_64);
+            let ub = if !unsigned { 0 } else if d.physical_type() == parquet::basic::Type::INT64 { 64 } else { 32 };
             if let Some(c) = rg["cols"].as_array_mut().and_then(|cs| cs.iter_mut().find(|c| c["name"] == json!(name))) {
-                c["nc"] = nc; c["mm"] = mm;
+                c["nc"] = nc; c["mm"] = mm; c["ub"] = json!(ub);
             }
         }
     }
@@ -210,34 +216,41 @@ pub fn run_case(c: &mut Value, uniq: &str) -> Value {
 // ---------------------------------------------------------------- generator
 const INT_TYPES: [&str; 6] = ["i64", "i64", "i32", "i16", "date", "ts"];
 
-fn gen_val(r: &mut Rng, ty: &str, dom: u64, base: i64, extreme: bool) -> i64 {
+fn gen_val(r: &mut Rng, ty: &str, dom: u64, base: i64, extreme: bool) -> Value {
+    if ty == "u64" {
+        // dom odd: every value >= 2^63 (does not fit i64); dom even: every value < 2^61. Never mixed within a column, so the
+        // reinterpreted range cannot overflow (keeps C18-F2 and C18-F3 in separate strata).
+        return if dom % 2 == 1 { json!((r.next() >> 2) | (1u64 << 63)) } else { json!(r.next() >> 3) };
+    }
     let (lo, hi): (i64, i64) = match ty {
         "i32" | "date" => (i32::MIN as i64, i32::MAX as i64),
         "i16" => (i16::MIN as i64, i16::MAX as i64),
         "i8" => (-128, 127),
         "u32" => (0, u32::MAX as i64),
-        "u64" => (0, i64::MAX),
         _ => (i64::MIN, i64::MAX),
     };
+    if ty == "u32" && r.chance(1, 3) { return json!(*r.pick(&[0i64, 1, 13, (1 << 31) - 1, 1 << 31, (1 << 31) + 7, u32::MAX as i64 - 1, u32::MAX as i64])); }
     if extreme && r.chance(1, 2) {
-        return *r.pick(&[lo, lo.saturating_add(1), (-1i64).max(lo), 0, 1, hi - 1, hi]);
+        return json!(*r.pick(&[lo, lo.saturating_add(1), (-1i64).max(lo), 0i64.max(lo), 1, hi - 1, hi]));
     }
     let v = match dom {
         0 => r.range(-5, 20),
         1 => r.range(-1000, 1000),
         2 => base.saturating_add(r.range(0, 50)),
-        _ => { let span = if ty == "i64" || ty == "ts" || ty == "u64" { 1i64 << 61 } else { hi.min(1 << 30) }; r.range(-span, span) }
+        _ => { let span = if ty == "i64" || ty == "ts" { 1i64 << 61 } else { hi.min(1 << 30) }; r.range(-span, span) }
     };
-    v.clamp(lo, hi)
+    json!(v.clamp(lo, hi))
 }
 
 pub fn gen_table(r: &mut Rng, unsigned: bool) -> Value {
     let extreme = r.chance(1, 6);
+    // unsigned logical types: their own stratum (all statistics on, no extreme values) so C18-F3 is attributed on its own
+    let unsigned = unsigned && !extreme && r.chance(1, 5);
     let ncols = 1 + r.below(4) as usize;
     let mut cols = vec![];
     for i in 0..ncols {
         let ty = if i > 0 && r.chance(1, 6) { *r.pick(&["str", "f64"]) }
-                 else if unsigned && r.chance(1, 3) { *r.pick(&["u32", "u64"]) }
+                 else if unsigned && r.chance(1, 2) { *r.pick(&["u32", "u32", "u64"]) }
                  else { *r.pick(&INT_TYPES) };
         cols.push((format!("c{}", i), ty.to_string()));
     }
@@ -247,7 +260,7 @@ pub fn gen_table(r: &mut Rng, unsigned: bool) -> Value {
     for fi in 0..nfiles {
         // a stats-less column / file: never in the extreme stratum (keeps the two known defects in separate strata)
         let mut nostats: Vec<String> = vec![];
-        if !extreme {
+        if !extreme && !unsigned {
             if r.chance(1, 5) { nostats = cols.iter().map(|c| c.0.clone()).collect(); }
             else { for c in &cols { if r.chance(1, 6) { nostats.push(c.0.clone()); } } }
         }
@@ -262,7 +275,7 @@ pub fn gen_table(r: &mut Rng, unsigned: bool) -> Value {
             let mut cc = vec![];
             for (ci, (n, ty)) in cols.iter().enumerate() {
                 let vals: Vec<Value> = (0..rows).map(|_| {
-                    if rg_null_all[ci] || r.below(100) < nulld[ci] { Value::Null } else { json!(gen_val(r, ty, doms[ci], base, extreme)) }
+                    if rg_null_all[ci] || r.below(100) < nulld[ci] { Value::Null } else { gen_val(r, ty, doms[ci], base, extreme) }
                 }).collect();
                 cc.push(json!({"name": n, "vals": vals}));
             }
@@ -271,7 +284,7 @@ pub fn gen_table(r: &mut Rng, unsigned: bool) -> Value {
         files.push(json!({"name": format!("f{}.parquet", fi), "nostats": nostats, "pagestats": r.chance(1, 5), "rgs": rgs}));
     }
     // the first file must exist for try_new to read a schema; an all-empty table is allowed
-    json!({"kind": "table", "open": if r.chance(2, 3) { "dir" } else { "files" }, "extreme": extreme,
+    json!({"kind": "table", "open": if r.chance(2, 3) { "dir" } else { "files" }, "extreme": extreme, "unsigned": unsigned,
            "corrupt": r.chance(1, 25),
            "cols": cols.iter().map(|(n, t)| json!({"name": n, "ty": t})).collect::<Vec<_>>(), "files": files})
 }
@@ -281,7 +294,7 @@ pub fn main(o: &Opts) {
         for (i, mut c) in replay_cases(p).into_iter().enumerate() { let imp = run_case(&mut c, &format!("r{}", i)); emit(c, imp); }
         return;
     }
-    let unsigned = o.get("unsigned") == Some("1");
+    let unsigned = o.get("unsigned") != Some("0");
     let mut r = Rng::new(o.seed ^ 0xC18);
     for n in 0..o.cases {
         let mut c = gen_table(&mut r, unsigned);
